@@ -32,15 +32,19 @@ from prompt_toolkit.history import FileHistory, History, ThreadedHistory
 ID = "C13"
 DRIVER = "drv_c13"
 PROPS = ["Ptk.Props.C13"]
+ANCHORS = ["src/prompt_toolkit/history.py"]
 LEVEL_TEXT = ("Lean 4 theorems over an executable model of history.py: (a) FileHistory byte format with a concrete "
               "UTF-8 encoder and CPython-compatible replacing decoder: load(store*(es)) = reverse(es) for all strings, "
               "truncation at every byte offset keeps every completed entry and adds at most one damaged newest entry, "
-              "later appends re-frame correctly after a torn write, several caching instances on one file; "
-              "(b) ThreadedHistory as a transition system at lock/event granularity: for every interleaving in which "
-              "no append_string overlaps a load, the consumer yields exactly the inline sequence and terminates; the "
-              "overlapping case is refuted on concrete schedules (known finding F5). Tied to /repo on every run by a "
-              "differential correspondence (real files, every truncation offset, real threads under enforced "
-              "schedules) and the property oracle")
+              "later appends re-frame correctly after a torn write or after arbitrary garbage, several caching "
+              "instances on one file; (b) ThreadedHistory as a transition system at lock/event granularity: for every "
+              "interleaving in which no append_string overlaps a load, the consumer yields exactly the inline sequence "
+              "and terminates (budget + no lost wake-up); the overlapping case is refuted on concrete schedules (known "
+              "finding F5a-c); several simultaneous load() calls at per-event.set() granularity: safety for both "
+              "variants of the notify loop, no lost wake-up when it iterates over a copy, and a proved lost wake-up "
+              "(F5d, fix proposed) for the live-list iteration of the current code. Tied to /repo on every run by a "
+              "generated flag (behavioural probe of the notify loop), a differential correspondence (real files, every "
+              "truncation offset, real threads under enforced schedules) and the property oracle")
 LEVEL_NOTE = ("trusted: Lean kernel, axioms propext/Classical.choice/Quot.sound only; hand-written model (validated by "
               "the correspondence, not proved equal to the Python); CPython bytes/str/codecs/file semantics; POSIX "
               "append writes are contiguous; threaded part is at atomic-step granularity (partial)")
@@ -49,9 +53,12 @@ RULE = ("file: exhaustive entry lists over the alphabet {a,+,#,LF,CR,U+2028,NUL,
         "fresh load and a load at every truncation offset, then seeded random op sequences (appends alternating "
         "between 4 instances, load/get_strings, cut at a random byte + further appends, raw garbage files); "
         "codec: boundary code points and random garbage bytes; th: every schedule of the loader / consumer / "
-        "appender steps up to the tier's depth from several initial stores, then seeded random complete schedules. "
-        "non-trivial = a file case with at least one non-empty entry or raw bytes, a codec case, or a th case in "
-        "which the consumer takes at least one step")
+        "appender steps up to the tier's depth from several initial stores, then seeded random complete schedules; "
+        "th2: two or three simultaneous load() calls, the loader stopping after every event.set(): all schedules up "
+        "to the tier's depth + random; after every th/th2 schedule the threads run freely and every load() call in "
+        "progress must complete with the inline sequence. non-trivial = a file case with at least one non-empty "
+        "entry or raw bytes, a codec case, a th case in which the consumer takes at least one step, a th2 case "
+        "with at least two load() calls")
 EXHAUSTIVE = True
 EXHAUSTIVE_SCOPE = {
     "quick": "file: 1 entry len<=3, 2 entries len<=1, raw files len<=3 over 9 byte symbols, every truncation "
@@ -66,7 +73,9 @@ EXHAUSTIVE_SCOPE = {
                 "calls: all schedules up to depth 10 for stores of 0 and 1 items",
 }
 TRUSTED = ["harness/c13.py compares file bytes after every append, the loaded lists at every truncation offset, "
-           "and (strs, loaded, yielded items, events, store, program counters) after every scheduled step",
+           "and (strs, loaded, yielded items, events, registered event list, store, program counters) after every "
+           "scheduled step",
+           "harness/gen_c13.py: behavioural probe whether the notify loops iterate over a copy (-> Gen/C13.lean)",
            "Ptk/Model/C13.lean is a hand translation of history.py (correspondence-checked)",
            "the schedule shim (replacement of history.threading and the gated inner History) pauses threads only "
            "at synchronisation points; it does not change what the code computes"]
@@ -74,10 +83,14 @@ ASSUMPTIONS = ["CPython: open(...,'ab').write appends contiguously; iteration ov
                "bytes.decode('utf-8','replace') = the model's decoder (compared on garbage every run)",
                "str(datetime.now()) contains no newline (the correspondence injects the timestamp; the oracle uses the real clock)",
                "lone surrogates are outside the alphabet (str.encode raises; Lean Char cannot hold them)",
-               "threaded part: every code section between two synchronisation points is atomic; one consumer at a time; "
-               "the inner history takes its snapshot in one step (true for FileHistory and InMemoryHistory)"]
-PARTIAL_SCOPE = ["ThreadedHistory: real preemption inside a step, several simultaneous load() consumers, and an inner "
-                 "history that reads lazily are not modelled",
+               "threaded part: every code section between two synchronisation points (lock block, event.wait, each "
+               "event.set, the inner load_history_strings call, store_string) is atomic; the inner history takes its "
+               "snapshot in one step (true for FileHistory and InMemoryHistory); a Python list iterator is an index "
+               "into the live list"]
+PARTIAL_SCOPE = ["ThreadedHistory: real preemption inside a step and an inner history that reads lazily are not modelled",
+                 "several simultaneous load() calls: modelled without append_string; safety and no-lost-wake-up are "
+                 "proved, a termination bound only for the single-consumer system; a cancelled (aclose) load() is "
+                 "not modelled",
                  "entries appended while a load() is in progress: property is FALSE (F5, known findings) - theorems "
                  "cover exactly the schedules without such an overlap",
                  "concurrent writers from different processes (interleaved partial writes) not modelled",
@@ -117,18 +130,33 @@ def scratch() -> str:
 
 
 class _FixedClock:
-    """stands in for the `datetime` module inside history.py during the correspondence"""
+    """stands in for the `datetime` module inside history.py during the correspondence: `datetime.now()`
+    (also utcnow / today) returns the case's timestamp string; everything else is the real module"""
 
     def __init__(self):
+        import datetime as real
+
         self.ts = "T"
+        self._real = real
         outer = self
 
-        class _dt:
-            @staticmethod
-            def now():
+        class _dt(real.datetime):
+            @classmethod
+            def now(cls, tz=None):
+                return outer.ts
+
+            @classmethod
+            def utcnow(cls):
+                return outer.ts
+
+            @classmethod
+            def today(cls):
                 return outer.ts
 
         self.datetime = _dt
+
+    def __getattr__(self, name):
+        return getattr(self._real, name)
 
 
 def collect_load(h: History):
@@ -701,6 +729,27 @@ def th2_model_lines(case):
     return out
 
 
+def _await_consumer(th, t, own_events, limit):
+    """wait for a load() call running freely; it can be declared hung early when nobody is left to
+    wake it: the loader thread has ended and the consumer's event stays unset"""
+    import time
+
+    t0 = time.time()
+    stuck_since = None
+    while t.is_alive() and time.time() - t0 < limit:
+        t.join(0.1)
+        lt = th._load_thread
+        evs = own_events()
+        hopeless = (lt is not None and not lt.is_alive() and evs and not any(e.is_set() for e in evs))
+        if hopeless:
+            stuck_since = stuck_since or time.time()
+            if time.time() - stuck_since > 6.0:
+                break
+        else:
+            stuck_since = None
+    return not t.is_alive()
+
+
 def th2_oracle(case):
     v = []
 
@@ -712,12 +761,12 @@ def th2_oracle(case):
         for role, t in r.cthreads.items():
             if _TH_HANG:
                 break
-            t.join(12)
-            if t.is_alive():
+            own = lambda role=role: [e for e in r.th._string_load_events if getattr(e, "owner", None) == role]
+            if not _await_consumer(r.th, t, own, 20):
                 _TH_HANG = True
                 v.append({"signature": "ThreadedHistory.load | several simultaneous load() calls: never completes",
                           "msg": f"old={case['old']!r} pre={case['pre']!r} after schedule {case['ops']!r} the "
-                                 f"threads ran freely for 12 s and load() call {role} did not finish "
+                                 f"threads ran freely, the loader thread ended, and load() call {role} did not finish "
                                  f"(yielded {r.outs[role]!r}); events still registered: "
                                  f"{len(r.th._string_load_events)}"})
             elif r.outs[role] != exp:
@@ -978,12 +1027,11 @@ def th_oracle(case):
         if not r.cons_active() or _TH_HANG:
             return
         r.s.set_free()
-        r.cthread.join(15)
-        if r.cthread.is_alive():
+        if not _await_consumer(r.th, r.cthread, lambda: list(r.th._string_load_events), 20):
             _TH_HANG = True  # reported once per worker process; do not wait again
             v.append({"signature": "ThreadedHistory.load | never completes",
                       "msg": f"old={case['old']!r} pre={case['pre']!r} after schedule {case['ops']!r} the "
-                             f"threads ran freely for 15 s and load() did not finish; yielded {list(r.out)!r}"})
+                             f"threads ran freely, the loader thread ended, and load() did not finish; yielded {list(r.out)!r}"})
             return
         if r.athread is not None:
             r.athread.join(8)
@@ -1087,6 +1135,10 @@ def codec_cases(tier, rng):
     yield {"kind": "codec", "strs": [], "bytes": [[b] for b in range(256)]}
     inter = sorted(set(RAW_RAND + [0xC3, 0xA9, 0xE4, 0xB8, 0x96, 0xEE, 0xF1, 0xF3, 0x98]))
     yield {"kind": "codec", "strs": [], "bytes": [[a, b] for a in inter for b in inter]}
+
+
+def codec_random(tier, rng):
+    inter = sorted(set(RAW_RAND + [0xC3, 0xA9, 0xE4, 0xB8, 0x96, 0xEE, 0xF1, 0xF3, 0x98]))
     n = 40 if tier == "quick" else 400
     for _ in range(n):
         strs = []
@@ -1387,7 +1439,21 @@ def th2_systematic(tier):
                 yield {"kind": "th2", "old": old, "pre": [], "ops": prefix + ops + c(1 - first)}
 
 
+_EXHAUSTIVE_DONE = set()
+
+
 def cases(tier, rng):
+    """exhaustive small scope (once per process and tier: the source-change escalation calls this again
+    with further seeds, which then add only random cases), then seeded random cases"""
+    if tier in _EXHAUSTIVE_DONE:
+        yield from random_cases(tier, rng)
+        return
+    _EXHAUSTIVE_DONE.add(tier)
+    yield from exhaustive_cases(tier, rng)
+    yield from random_cases(tier, rng)
+
+
+def exhaustive_cases(tier, rng):
     quick = tier == "quick"
     # --- codec
     yield from codec_cases(tier, rng)
@@ -1418,15 +1484,19 @@ def cases(tier, rng):
             yield {"kind": "file", "ops": [["raw", list(tup)], ["fresh"], ["truncall"]]}
     # --- threaded, exhaustive schedules
     yield from th_exhaustive(tier)
-    # --- several simultaneous consumers (oracle only)
+    # --- several simultaneous load() calls
     yield from th2_systematic(tier)
     for nstore, ncons, depth in ([(0, 2, 7)] if quick else [(0, 2, 10), (1, 2, 10)]):
         old = ["o%d" % i for i in range(nstore)]
         for sched in th2_exhaustive(nstore, ncons, depth):
             yield {"kind": "th2", "old": old, "pre": [], "ops": sched}
+
+
+def random_cases(tier, rng):
+    quick = tier == "quick"
+    yield from codec_random(tier, rng)
     for _ in range(100 if quick else 3000):
         yield rand_th2_case(rng)
-    # --- random
     for _ in range(600 if quick else 12000):
         yield rand_file_case(rng)
     for _ in range(300 if quick else 6000):
@@ -1447,7 +1517,8 @@ def nontrivial(case):
 
 
 def distribution(cases):
-    d = {"kind": {}, "file_ops": {}, "th_steps": {}, "th_len": {}, "entries_per_file": {}}
+    d = {"kind": {}, "file_ops": {}, "th_steps": {}, "th_len": {}, "entries_per_file": {}, "th2_consumers": {},
+         "th2_len": {}}
     for c in cases:
         k = c["kind"]
         d["kind"][k] = d["kind"].get(k, 0) + 1
@@ -1462,6 +1533,11 @@ def distribution(cases):
                 d["th_steps"][op[0]] = d["th_steps"].get(op[0], 0) + 1
             b = str(len(c["ops"]) // 5 * 5)
             d["th_len"][b] = d["th_len"].get(b, 0) + 1
+        elif k == "th2":
+            n = str(len({op[1] for op in c["ops"] if op[0] == "c" and op[2] == "start"}))
+            d["th2_consumers"][n] = d["th2_consumers"].get(n, 0) + 1
+            b = str(len(c["ops"]) // 5 * 5)
+            d["th2_len"][b] = d["th2_len"].get(b, 0) + 1
     return d
 
 
